@@ -55,50 +55,52 @@ fn expected_followups(scn: &Scenario, s: StoreIx, acts: &[ActId]) -> u32 {
     n
 }
 
-pub fn enumerate(tier: Tier, sched: bool) -> (Vec<Scenario>, bool) {
-    let mut out = vec![];
-    let max_m = if tier == Tier::Thorough { 3 } else { 2 };
-    for m in 1..=max_m {
-        let slots = 3 * m;
-        let total: u64 = 4u64.pow(slots as u32);
-        let mut code = 0u64;
-        let mut batch_ix = 0u64;
-        while code < total {
-            let (mut b, s, reds, mws, th, fg) = base(m, 4);
-            let mut acts = vec![];
-            for _ in 0..64 {
-                if code >= total {
-                    break;
+/// batch `bi` of the assignments for m middlewares (64 assignments per store)
+fn batch(m: usize, bi: u64) -> Scenario {
+    let slots = 3 * m;
+    let total: u64 = 4u64.pow(slots as u32);
+    let (mut b, s, reds, mws, th, fg) = base(m, 4);
+    let mut code = bi * 64;
+    for _ in 0..64 {
+        if code >= total {
+            break;
+        }
+        let a = b.action(s, (code % 4) as u8);
+        let mut c = code;
+        for mw in &mws {
+            for h in HOOKS {
+                let v = VERDICTS[(c % 4) as usize];
+                c /= 4;
+                if v != Verdict::Continue {
+                    b.act_mut(a).verdicts.push((*mw, h, v));
                 }
-                let a = b.action(s, (code % 4) as u8);
-                let mut c = code;
-                for mw in &mws {
-                    for h in HOOKS {
-                        let v = VERDICTS[(c % 4) as usize];
-                        c /= 4;
-                        if v != Verdict::Continue {
-                            b.act_mut(a).verdicts.push((*mw, h, v));
-                        }
-                    }
-                }
-                // every action returns one Task effect from reducer 0 so that effect handling
-                // under each verdict combination is observable
-                let e = b.eff(EffKind::Task, false, Stall::None);
-                b.act_mut(a).effects.push((reds[0], e));
-                acts.push(a);
-                b.s.threads[th].push(Op::Dispatch { act: a, via: VIAS[(code % 3) as usize] });
-                code += 1;
             }
-            let scn = finish(b, s, th, fg, 0);
+        }
+        // every action returns one Task effect from reducer 0 so that effect handling under each
+        // verdict combination is observable
+        let e = b.eff(EffKind::Task, false, Stall::None);
+        b.act_mut(a).effects.push((reds[0], e));
+        b.s.threads[th].push(Op::Dispatch { act: a, via: VIAS[(code % 3) as usize] });
+        code += 1;
+    }
+    finish(b, s, th, fg, 0)
+}
+
+pub fn enumerate(tier: Tier, sched: bool) -> EnumSpec {
+    let max_m = if tier == Tier::Thorough { 3 } else { 2 };
+    // (m, batch index) pairs
+    let mut items: Vec<(usize, u64)> = vec![];
+    for m in 1..=max_m {
+        let batches = 4u64.pow(3 * m as u32).div_ceil(64);
+        for bi in 0..batches {
             // schedule-controlled flavour: the run is deterministic (single producer); replay a
             // 5 % sample there for the R/S differential
-            if !sched || batch_ix % 20 == 0 {
-                out.push(scn);
+            if !sched || bi % 20 == 0 {
+                items.push((m, bi));
             }
-            batch_ix += 1;
         }
     }
-    (out, !sched)
+    EnumSpec { n: items.len(), make: Box::new(move |i| batch(items[i].0, items[i].1)), exhaustive: !sched }
 }
 
 pub fn raw(tier: Tier) -> proptest::strategy::BoxedStrategy<Raw> {
